@@ -51,6 +51,14 @@ def body_lines(b):
                 v, rule = "[%s]" % p["vn"], ""
             elif vk == "enum":
                 v, rule = '"x"', " // {enum: %s}" % p["vn"]
+            elif vk == "or":
+                v, rule = "@a | @b", ""
+            elif vk == "minmax":
+                v, rule = "3", " // {min: 1, max: 9}"
+            elif vk == "null":
+                v, rule = "null", ""
+            elif vk == "ints":
+                v, rule = "[1, 2]", ""
             elif vk == "skey":
                 lines.append('  %s: 1%s' % (p["key"], comma))
                 continue
@@ -413,8 +421,19 @@ def sv(schema):
     if notation == "jsight" and isinstance(content, Obj):
         return sv_content(notation, content)
     if notation == "regex":
-        return {"notation": "regex", "tt": "", "type": "", "scalar": content if isinstance(content, str) else "", "children": []}
-    return {"notation": notation, "tt": "", "type": "", "scalar": "", "children": []}
+        return {"notation": "regex", "tt": "", "type": "", "scalar": content if isinstance(content, str) else "", "children": [], "rules": []}
+    return {"notation": notation, "tt": "", "type": "", "scalar": "", "children": [], "rules": []}
+
+
+def rules_view(c):
+    """rules of a schema node as [key, value] pairs; the value of a list rule is its items joined by commas"""
+    res = []
+    for r in c.get("rules") or []:
+        v = r.get("scalarValue", "")
+        if not v and r.get("children"):
+            v = ",".join(x.get("scalarValue", "") for x in r.get("children"))
+        res.append([r.get("key", ""), v])
+    return res
 
 
 def child_view(c):
@@ -426,7 +445,7 @@ def child_view(c):
     kids = []
     if tt == "object":
         kids = [[k.get("key", ""), k.get("inheritedFrom", "")] for k in (c.get("children") or [])]
-    return {"key": c.get("key", ""), "tt": tt, "type": c.get("type", ""), "scalar": scalar,
+    return {"key": c.get("key", ""), "tt": tt, "type": c.get("type", ""), "scalar": scalar, "rules": rules_view(c),
             "inh": c.get("inheritedFrom", ""), "kids": kids, "optional": bool(c.get("optional", False)), "note": c.get("note", "")}
 
 
@@ -439,7 +458,8 @@ def sv_content(notation, c):
     elif tt == "array":
         items = c.get("children") or []
         scalar = items[0].get("type", "") if items else ""
-    return {"notation": notation, "tt": tt, "type": c.get("type", ""), "scalar": scalar, "children": children}
+    return {"notation": notation, "tt": tt, "type": c.get("type", ""), "scalar": scalar, "children": children,
+            "rules": rules_view(c)}
 
 
 def project(text):
